@@ -62,6 +62,11 @@ fn prop_generated(t: &mut Tape, st: &mut Stats) -> Result<(), Failure> {
     cfg.f11_safe = false;
     cfg.decor = t.weighted(&[2, 5, 3]) as u8;
     cfg.budget = 10 + t.below(50);
+    if t.chance(1, 12) {
+        // wide documents (dozens of tables)
+        cfg.many_sections = true;
+        cfg.budget = 250 + t.below(250);
+    }
     let r = gen_doc(t, &cfg);
     st.eval();
     for c in &r.classes {
